@@ -13,7 +13,10 @@ MC          : CacheStore_Laws (Parse(Render(e)) = Kept(e) over a small universe,
               KeysGettable, Completes, NoRollback; the variant whose keys() lists every file — the unpatched
               code — must violate KeysOnlyPackages).
 spec->code /
-code->spec  : random entries (awkward single-line values, unknown keys, eclass maps with paths containing
+code->spec  : a deterministic BOUNDARY suite (eclass mapping absent / present but empty / one eclass with zero
+              mtime+md5 / several; no keys / every known key empty / every known key set / unknown keys only;
+              validation datum 0; stored over nothing / over an entry of the same cpv that had eclasses / that had
+              none; both layouts) and random entries (awkward single-line values, unknown keys, eclass maps with paths containing
               blanks/unicode, mtimes, md5s) are stored by the real cache over random old states (new category,
               other packages present, replacing the same cpv) in both layouts and read back by a FRESH cache
               object: CacheStore_Trace judges RoundTripVals / RoundTripEcl / RoundTripChf / KeysAfterStore.  The
@@ -30,7 +33,7 @@ import os
 import time
 from concurrent.futures import ThreadPoolExecutor
 
-from pylib import atomic, fsrec, tlc
+from pylib import atomic, tlc
 from pylib.common import mktmp, rng, use_repo
 
 LEVEL = "fault_enumeration"
@@ -63,6 +66,41 @@ def gen_entry(r_, known):
     return dict(vals=vals, hasecl=hasecl, ecl=ecl, chf=chf)
 
 
+def boundary_cases(keys, full):
+    """Deterministic boundary values of every stored field, crossed with what the store overwrites:
+    eclass mapping absent / present but EMPTY / one eclass with zero mtime+md5 / several; no keys at all / every known
+    key with an empty string / every known key non-empty / unknown keys only; validation datum 0;
+    over nothing / an entry of the same cpv that HAD eclasses / one that had none."""
+    plain = sorted(k for k in keys if not k.startswith("_"))
+    zero = dict(mtime=0, md5="%032x" % 0)
+    some = dict(mtime=1234, md5="d41d8cd98f00b204e9800998ecf8427e")
+    e1 = dict(name="eutils", dir="/var/db/repos/gentoo/eclass", mtime=1155996352, md5="%032x" % (2**127 + 5))
+    e2 = dict(name="x_y", dir="/a b/eclass", mtime=1, md5="%032x" % 1)
+    ez = dict(name="multilib", dir="/e", mtime=0, md5="%032x" % 0)
+    shapes = [
+        ("only-chf", dict(vals=[], hasecl=False, ecl=[], chf=some)),
+        ("empty-eclass-map", dict(vals=[dict(k="DEPEND", v=">=dev-libs/foo-2"), dict(k="INHERIT", v=""), dict(k="SLOT", v="0")],
+                                  hasecl=True, ecl=[], chf=some)),
+        ("zero-eclass", dict(vals=[dict(k="SLOT", v="0")], hasecl=True, ecl=[ez], chf=zero)),
+        ("all-keys-empty", dict(vals=[dict(k=k, v="") for k in plain], hasecl=True, ecl=[], chf=zero)),
+        ("all-keys-set", dict(vals=[dict(k=k, v=VALUES[(j % (len(VALUES) - 1)) + 1]) for j, k in enumerate(plain)], hasecl=True,
+                              ecl=[e1, e2], chf=some)),
+        ("unknown-keys-only", dict(vals=[dict(k=k, v="z") for k in UNKNOWN], hasecl=False, ecl=[], chf=some)),
+    ]
+    prevs = [
+        ("fresh", None),
+        ("had-eclasses", dict(vals=[dict(k="DEPEND", v="a/b"), dict(k="INHERIT", v="eutils x_y")], hasecl=True, ecl=[e1, e2], chf=some)),
+        ("had-no-eclasses", dict(vals=[dict(k="DESCRIPTION", v="old")], hasecl=False, ecl=[], chf=zero)),
+    ]
+    out = []
+    for si, (sname, ent) in enumerate(shapes):
+        for pi, (pname, prev) in enumerate(prevs):
+            for layout in (("flat", "md5") if full else (("flat", "md5")[(si + pi) % 2],)):
+                before = {} if prev is None else {"cat/pkg-1.0": prev, "cat/other-3": prevs[1][1]}
+                out.append(dict(layout=layout, known=None, cpv="cat/pkg-1.0", before=before, entry=ent, boundary=f"{sname}/{pname}"))
+    return out
+
+
 def run(ck):
     use_repo()
     from snakeoil.chksum import LazilyHashedPath
@@ -71,7 +109,8 @@ def run(ck):
     from pkgcore.cache import flat_hash
     from pkgcore.ebuild.const import metadata_keys
 
-    ck.rule = ("random metadata entries stored with the real flat_hash.database / md5_cache over random old cache states; "
+    ck.rule = ("a deterministic boundary suite (empty/absent/zero value of every stored field x what is overwritten) and "
+               "random metadata entries stored with the real flat_hash.database / md5_cache over random old cache states; "
                "non-trivial = distinct (layout, old state, entry) with at least two keys or eclass data; every mutation of "
                "the store is a crash point (power cut before it, half write, EIO), each followed by the real cache[cpv] and "
                "list(cache.keys())")
@@ -139,24 +178,27 @@ def run(ck):
 
     r_ = rng(27)
     root = mktmp("c27")
-    n = 1 if ck.replay_case else ck.pick(10, 80)
-    my_events, fs_events, cases = [], [], {}
-    for tid in range(n):
-        if ck.replay_case:
-            c = ck.replay_case["detail"]["case"]
-        else:
-            layout = "flat" if tid % 2 == 0 else "md5"
+    if ck.replay_case:
+        case_list = [ck.replay_case["detail"]["case"]]
+    else:
+        # (a) the deterministic boundary suite, (b) random entries over random old states
+        case_list = boundary_cases(metadata_keys, not ck.quick)
+        ck.extra["boundary_cases"] = len(case_list)
+        for j in range(ck.pick(8, 80)):
+            layout = "flat" if j % 2 == 0 else "md5"
             known = None if r_.random() < 0.7 else sorted(set(r_.sample(list(metadata_keys), 6)) | {"_eclasses_"})
             kk = list(known) if known is not None else list(metadata_keys)
             cpv = r_.choice(CPVS)
-            mode = tid % 3  # 0: nothing there (category directory missing), 1: other packages, 2: replace the same cpv
+            mode = j % 3  # 0: nothing there (category directory missing), 1: other packages, 2: replace the same cpv
             before = {}
             if mode >= 1:
                 for o in r_.sample([x for x in CPVS if x != cpv], r_.randint(1, 3)):
                     before[o] = gen_entry(r_, kk)
             if mode == 2:
                 before[cpv] = gen_entry(r_, kk)
-            c = dict(layout=layout, known=known, cpv=cpv, before=before, entry=gen_entry(r_, kk))
+            case_list.append(dict(layout=layout, known=known, cpv=cpv, before=before, entry=gen_entry(r_, kk), boundary=""))
+    my_events, fs_events, cases = [], [], {}
+    for tid, c in enumerate(case_list):
         cases[tid] = c
         layout, known, cpv = c["layout"], c["known"], c["cpv"]
         known_all = sorted(set(known if known is not None else metadata_keys) | {"_mtime_", "_md5_"})
@@ -180,28 +222,10 @@ def run(ck):
             frame = [loc(layout)] if not c["before"] else [f"{loc(layout)}/{cat}"]
         if layout == "md5" and not c["before"]:
             frame = ["repo"]
-        # flat_hash writes the entry with writelines(<str>), i.e. one write per character: every character is a
-        # mutation for the recorder.  All of them are replayed through FsModel; the re-executions with a cut / fault
-        # are sampled evenly over the writes (max_cuts) and done exhaustively for the non-write tail
-        # (close -> chown -> chmod -> rename), where the complete temp file sits next to the entry.
+        # the recorder buffers like a real file object: the store is open, ONE write (at close), chown, chmod, rename;
+        # every one of these mutations is a cut point (+ half write, + EIO)
         rt = os.path.join(root, f"r{tid}")
-        evs, info = atomic.scenario(tid, rt, setup, op, reader=reader, watch_paths=[fp], frame=frame,
-                                    faults=True, max_cuts=ck.pick(12, 24), label="cache.store")
-        tail_i = max(e["i"] for e in evs) + 1
-        for k in range(max(2, info["n_mut"] - 4), info["n_mut"]):
-            for kind in ("cut", "eio"):
-                atomic._fresh(rt, setup)
-                if kind == "cut":
-                    r, _ = fsrec.run_with_cut(rt, lambda: op(rt), k)
-                    at = r.cut_event or {}
-                    at_op, at_path = at.get("op", "?"), at.get("rp", "?")
-                else:
-                    r, _ = fsrec.run_with_fault(rt, lambda: op(rt), k)
-                    at_op = next((e.get("failed_op") for e in r.events if e["op"] == "fault"), "?")
-                    at_path = next((e.get("rp") for e in r.events if e["op"] == "fault"), "?")
-                evs.append(dict(tid=tid, i=tail_i, ev="reader", k=k, view=atomic._view(reader, rt), kind=kind, at_op=at_op, at_path=at_path))
-                tail_i += 1
-                info["crash_points"] += 1
+        evs, info = atomic.scenario(tid, rt, setup, op, reader=reader, watch_paths=[fp], frame=frame, faults=True, label="cache.store")
         i = 0
         for e in evs:
             if e["ev"] != "reader":
@@ -214,7 +238,7 @@ def run(ck):
         my_events.append(dict(tid=tid, i=0, ev="store", layout=layout, known=known_all, stored=c["entry"], got=info["new_view"]["got"],
                               keys=info["new_view"]["keys"], before=sorted(c["before"]), cpv=cpv))
         ck.count()
-        if len(c["entry"]["vals"]) >= 2 or c["entry"]["ecl"]:
+        if len(c["entry"]["vals"]) >= 2 or c["entry"]["ecl"] or c.get("boundary"):
             ck.nontriv((layout, repr(sorted(c["before"])), repr(c["entry"])))
         ck.extra["crash_points"] = ck.extra.get("crash_points", 0) + info["crash_points"]
         if tid < 2:
@@ -222,7 +246,8 @@ def run(ck):
                            crash_points=info["crash_points"]))
 
     def short(c):
-        return dict(layout=c["layout"], cpv=c["cpv"], n_before=len(c["before"]), replaces=c["cpv"] in c["before"], case=c)
+        return dict(layout=c["layout"], cpv=c["cpv"], n_before=len(c["before"]), replaces=c["cpv"] in c["before"],
+                    boundary=c.get("boundary", ""), empty_eclass_map=bool(c["entry"]["hasecl"] and not c["entry"]["ecl"]), case=c)
 
     idx = {(e["tid"], e["i"]): e for e in my_events}
     fs_job = pool.submit(lambda: atomic.judge(ck, fs_events))  # the two judges run side by side
